@@ -8,12 +8,12 @@ PROPS["C01"] = dict(
                "is re-run under a basic-block step budget for termination. A 'decoders' phase calls the decoders no constructor or getter reaches (static from_extension_header/from_bytes/from_option "
                "decoders, PDUOption::to<T>() for every T and byte order, ICMP extension objects, DNS SOA rdata, the RadioTap field cursor, every class's extract_metadata) on every body length 0..63 x boundary contents.",
     level_note="Red-zone sanitizers miss intra-object and far out-of-bounds accesses; UBSan 'enum' check excluded (C++11: unspecified, not UB); termination = step budget 2e6+4000n blocks.",
-    phases=[dict(name="asan", harness="c01.cpp", flavor="asan", mode="main", cases=dict(quick=26000, thorough=120000), watchdog=180),
-            dict(name="optfuzz", harness="c01.cpp", flavor="asan", mode="optfuzz", cases=dict(quick=10 * 256, thorough=10 * 256 * 4), watchdog=180),
-            dict(name="decoders", harness="c01_decoders.cpp", flavor="asan", mode="decoders", cases=dict(quick=64 * 256, thorough=64 * 256 * 4), watchdog=180),
-            dict(name="memcheck", harness="c01.cpp", flavor="vg", mode="main", cases=dict(quick=400, thorough=1600), watchdog=600, crash_limit=10,
+    phases=[dict(name="asan", harness="c01.cpp", flavor="asan", mode="main", cases=dict(quick=26000, thorough=120000), watchdog=600),
+            dict(name="optfuzz", harness="c01.cpp", flavor="asan", mode="optfuzz", cases=dict(quick=10 * 256, thorough=10 * 256 * 4), watchdog=600),
+            dict(name="decoders", harness="c01_decoders.cpp", flavor="asan", mode="decoders", cases=dict(quick=64 * 256, thorough=64 * 256 * 4), watchdog=600),
+            dict(name="memcheck", harness="c01.cpp", flavor="vg", mode="main", cases=dict(quick=400, thorough=1600), watchdog=1200, crash_limit=10,
                  wrapper=["valgrind", "-q", "--error-exitcode=95", "--exit-on-first-error=yes", "--undef-value-errors=yes", "--track-origins=no", "--num-callers=20", "--max-stackframe=600000000"]),
-            dict(name="steps", harness="c01.cpp", flavor="cov", mode="main", cases=dict(quick=2600, thorough=12000), watchdog=180, budget=0)],
+            dict(name="steps", harness="c01.cpp", flavor="cov", mode="main", cases=dict(quick=2600, thorough=12000), watchdog=600, budget=0)],
     rule="case = (entry point, derivation of inputs: seed+all truncations | 48 mutations of an accepted seed | generated packet + mutations + truncations | 48 random strings | 64 KiB); "
          "distinct = distinct (entry point, accepted layer chain, hash of all getter values) for accepted inputs and (entry point, length) for rejected ones",
     floors=dict(any={"distinct": 20000, "ok:*": 20, "rej:*": 20, "inputs": 500000, "entry_points": 60, "optfuzz:*": 20000, "clone_outlives_original": 50000, "classes_with_extract_metadata": 13, "dec_ok:extract_metadata:*": 100, "dec_rej:extract_metadata:*": 100, "dec_ok:IPv6::*": 500, "dec_ok:RadioTapParser": 1000, "dec_ok:DHCPv6::duid_*": 1000}),
